@@ -154,6 +154,11 @@ class Module(AuxDataContainer):
             super().__init__(*args)
 
         def add(self, v: _T) -> None:
+            if v in self._data:
+                # Already a member: nothing to do, as for a built-in set.
+                # (Taking it out and putting it back would, among other
+                # things, make a running iteration meet it a second time.)
+                return
             if v._module is not None:
                 getattr(v._module, self._field).discard(v)
             v._module = self._node
